@@ -1803,6 +1803,13 @@ def replace_for_loops_with_dict_comp(source: str) -> str:
         if _is_read_after_loop(_names_in(*(comp.target for comp in generators)), n2, root):
             continue
 
+        # 'd[key] = value' evaluates value first, '{key: value for ...}' evaluates key first.
+        safe_callables = parsing.safe_callable_names(root)
+        if core.has_side_effect(body_node.targets[0].slice, safe_callables) and core.has_side_effect(
+            body_node.value, safe_callables
+        ):
+            continue
+
         comp = ast.DictComp(
             key=body_node.targets[0].slice, value=body_node.value, generators=generators
         )
